@@ -77,8 +77,8 @@ class EvDomain(Domain):
     def local_name(st, decl):
         """source name of the local variable with this declaration id (so that `__range1` / a reference alias reports the variable it designates)"""
         for k, node, payload in reversed(st.events):
-            if k == 'decl' and node is not None:
-                for v in node.vars:
+            if k == 'decl' and node is not None and node.k == 'decl':
+                for v in node.vars or []:
                     if v.get('decl') == decl: return v['name']
         return None
 
